@@ -377,6 +377,19 @@ func consFamily(tier string) *FamilySpec {
 	return fs
 }
 
+// consGenFamily: the consumer loops that live inside a generator (wrapper ingen): their loop
+// variables, iterator variables and closures are generator locals, i.e. C03's subject too.
+func consGenFamily(tier string) *FamilySpec {
+	all := consFamily(tier)
+	fs := &FamilySpec{Name: "CONS-gen", Reductions: all.Reductions, Template: all.Template, ShardSize: all.ShardSize}
+	for _, p := range all.Progs {
+		if strings.HasSuffix(p.Key, "|ingen") {
+			fs.Progs = append(fs.Progs, p)
+		}
+	}
+	return fs
+}
+
 // C06 — consumer-side range/pull code.
 func C06(tier string) *core.Report {
 	r := core.NewReport("C06", tier)
